@@ -25,6 +25,10 @@ ITER = re.compile(r"^babylon::ConcurrentTransientHashSet<.*>::Iterator<.*>$")
 NEXT_FIELD = C03.NEXT_FIELD
 
 
+DEPENDS = {
+    "C03": "the set / map is the concurrent table used single-threaded",
+}
+
 def units(tier):
     return [driver("hash_table.cc")]
 
